@@ -113,8 +113,8 @@ func modelDump(p *Pool) string {
 			for k, v := range b.VerifStaticCANIDs() {
 				st = append(st, kv{int64(k), strconv.FormatInt(int64(k), 10) + ">" + p.hid(v)})
 			}
-			items = append(items, fmt.Sprintf("B%s:n=%s;p=%s;ni=%s;nn=%s;id=%s;st=%s", h, nameNum(b.Name()), optNet(p, b.ParentNetwork()),
-				joinKV(ni), mapNameID(p, b.VerifNodeNames()), joinKV(id), joinKV(st)))
+			items = append(items, fmt.Sprintf("B%s:n=%s;p=%s;ni=%s;nn=%s;id=%s;st=%s;ty=%d", h, nameNum(b.Name()), optNet(p, b.ParentNetwork()),
+				joinKV(ni), mapNameID(p, b.VerifNodeNames()), joinKV(id), joinKV(st), int(b.Type())))
 		case KNode:
 			n := e.Node
 			var ifs []string
